@@ -88,16 +88,22 @@ package db
 //@   ensures [kept] forall k int :: 0 <= k && k < old(len(st.Indexes)) ==> st.Indexes[k] == old(st.Indexes[k])
 //@   loop 1 invariant forall k int :: 0 <= k && k < $i ==> deepid(st.Indexes[k].Columns) != deepid(cols)
 
-// setPK (WITHOUT ROWID): records the primary key and drops the index that duplicates it. The slice
-// surgery inside its range loop is in bounds because index column lists are pairwise distinct (addIndex
-// never adds a duplicate); that argument is not mechanised.
+// setPK (WITHOUT ROWID): records the primary key and drops the index that duplicates it. The removal
+// happens inside a range loop over the original slice; it stays in bounds because index column lists
+// are pairwise distinct (addIndex never adds a duplicate), so at most one entry matches. That
+// invariant is ASSUMED here (free-requires: no call site proves it; that setPK preserves it through the
+// in-place removal could not be discharged within the time limits); under it the body is verified.
+//@ macro IDX_DISTINCT(st) = (forall qa int :: 0 <= qa && qa < len(st.Indexes) ==> (forall qb int :: qa < qb && qb < len(st.Indexes) ==> deepid(st.Indexes[qa].Columns) != deepid(st.Indexes[qb].Columns)))
 //@ func (*db.Schema).setPK
-//@   props C10
-//@   trusted removal inside a range loop; in bounds only under the pairwise-distinct invariant of the index list (not mechanised)
+//@   props C10 C05
 //@   modifies alloc M:S_db_SchemaIndex db.Schema.Indexes db.Schema.PK created
 //@   requires st != nil
-//@   trusted-ensures [count] created == old(created) + 1
-//@   trusted-ensures [pk] st.PK == cols
+//@   free-requires [distinct] IDX_DISTINCT(st)
+//@   ghost-exit created = created + 1
+//@   ensures [count] created == old(created) + 1
+//@   ensures [pk] st.PK == cols
+//@   loop 1 invariant [intact] len(st.Indexes) == len(old(st.Indexes)) ==> st.Indexes == old(st.Indexes) && mem(old(st.Indexes)) == old(mem(st.Indexes))
+//@   loop 1 invariant [removed] len(st.Indexes) != len(old(st.Indexes)) ==> (forall k int :: $i <= k && k < len(old(st.Indexes)) ==> deepid(old(st.Indexes)[k].Columns) != deepid(cols))
 
 //@ func (*db.Schema).addCreateIndex
 //@   props C10 C05
